@@ -89,6 +89,26 @@ func (i *interp) mustInt(v value, t types.Type, what string) int64 {
 	return n
 }
 
+// splitInt makes an integer concrete: a constant is returned as is; a
+// symbolic value is case-split over 0..maxK (a fork per feasible value); a
+// value outside that range is represented by maxK+1 (callers treat it as out
+// of range).
+func (i *interp) splitInt(v value, t types.Type, maxK int, what string) int64 {
+	x, isT := v.(*term.T)
+	if !isT || x.IsConst() {
+		return i.mustInt(v, t, what)
+	}
+	if maxK > i.cfg.MaxIndexFork {
+		unsupported("symbolic %s over a range of %d", what, maxK)
+	}
+	for k := 0; k <= maxK; k++ {
+		if i.decide(i.ctx.EqT(x, i.ctx.BV(x.W, uint64(k))), what+" == k") {
+			return int64(k)
+		}
+	}
+	return int64(maxK) + 1
+}
+
 // indexIn resolves an index term against a concrete length n: it forks on
 // the bounds check and then on each concrete index value.
 func (i *interp) indexIn(idx value, t types.Type, n int, what string) int {
@@ -467,13 +487,13 @@ func (i *interp) slice(instr *ssa.Slice, x, lo, hi, max value) value {
 	}
 	l, h, m := int64(0), int64(Len), int64(Cap)
 	if lo != nil {
-		l = i.mustInt(lo, instr.Low.Type(), "slice low bound")
+		l = i.splitInt(lo, instr.Low.Type(), Cap, "slice low bound")
 	}
 	if hi != nil {
-		h = i.mustInt(hi, instr.High.Type(), "slice high bound")
+		h = i.splitInt(hi, instr.High.Type(), Cap, "slice high bound")
 	}
 	if max != nil {
-		m = i.mustInt(max, instr.Max.Type(), "slice max bound")
+		m = i.splitInt(max, instr.Max.Type(), Cap, "slice max bound")
 	}
 	_, isStr := x.(string)
 	_, isSym := x.(symstr)
